@@ -1,9 +1,60 @@
-import Fpdec.Lemmas.Dom
+import Fpdec.Lemmas.Text
+import Fpdec.Model.Parser
 import Fpdec.Props.C07_Sites
 
-/-! # C07 — property theorems (under construction: see DESIGN.md section 6) -/
+/-!
+# C07 — Display/ToString is canonical and round-trips through the parser
+
+* `to_string_spec`, `string_from_spec`, `debug_spec`: `d.to_string()` (Display without flags), `String::from(d)` and the
+  text inside `Debug`'s `Dec!(..)` are the same byte string `Spec.render d`: optional `-`, the integer part without leading
+  zeros, and — iff `d` has `f > 0` fractional digits — a `.` followed by exactly `f` digits.  All profiles.
+* `render_parses_back`: the reference grammar parser maps that text back to exactly `(coefficient, fractional digits)`;
+  the text is made of bytes and is shorter than 64.
+* `roundtrip_of_parser`: composing with the parser theorem of C06 (`FromStrSpec`, discharged in `Props/C06.lean`) gives
+  `Decimal::from_str(d.to_string()) = Ok(d)` with identical coefficient and digit count.
+serde-as-str is `into = "String"` / `try_from = "String"` around these two functions; serde's glue is exercised by the
+correspondence run with the feature enabled, not modelled.
+-/
 
 namespace Fpdec.Props.C07
 open Fpdec Fpdec.Model
+
+theorem string_from_spec (prof : Profile) (d : Dec) (hd : Dom d) :
+    toStringDec prof d = .ok (Spec.render d.coeff d.nfrac) := toStringDec_spec prof d hd
+
+theorem to_string_spec (prof : Profile) (tm : Mode) (d : Dec) (hd : Dom d) :
+    display prof tm {} d = .ok (Spec.render d.coeff d.nfrac) := display_default prof tm d hd
+
+theorem debug_spec (prof : Profile) (d : Dec) (hd : Dom d) :
+    debugDec prof d = .ok ([68, 101, 99, 33, 40] ++ Spec.render d.coeff d.nfrac ++ [41]) := debugDec_spec prof d hd
+
+theorem render_parses_back (a : Int) (p : Nat) (ha : I128_MIN < a ∧ a ≤ I128_MAX) (hp : p ≤ 18) :
+    Spec.parseSpec (Spec.render a p) = .ok a p ∧ (∀ c ∈ Spec.render a p, c < 256) ∧ (Spec.render a p).length < 64 :=
+  render_parse a p ha hp
+
+/-- the statement of the parser theorem (C06) that the round trip needs -/
+def FromStrSpec : Prop :=
+  ∀ (prof : Profile) (s : List Nat), (∀ c ∈ s, c < 256) → s.length < 2 ^ 56 →
+    match Spec.parseSpec s, fromStr prof s with
+    | .ok c p, .ok (.ok d) => d = ⟨c, p⟩
+    | .empty, .ok (.error e) => e = ParseErr.empty
+    | .bad, .ok (.error e) => e ≠ ParseErr.empty
+    | _, _ => False
+
+/-- parsing the canonical text gives back the identical Decimal -/
+theorem roundtrip_of_parser (hparse : FromStrSpec) (prof : Profile) (d : Dec) (hd : Dom d) :
+    fromStr prof (Spec.render d.coeff d.nfrac) = .ok (.ok d) := by
+  obtain ⟨h1, h2, h3⟩ := render_parse d.coeff d.nfrac ⟨hd.1, hd.2.1⟩ hd.2.2
+  have h := hparse prof (Spec.render d.coeff d.nfrac) h2 (by omega)
+  rw [h1] at h
+  cases hr : fromStr prof (Spec.render d.coeff d.nfrac) with
+  | panic k => rw [hr] at h; exact absurd h (by simp)
+  | ok e =>
+    cases e with
+    | error err => rw [hr] at h; exact absurd h (by simp)
+    | ok v => rw [hr] at h; simp only at h; rw [h]
+
+/-! ### non-vacuity -/
+example : toStringDec Profile.dev ⟨-5, 3⟩ = .ok [45, 48, 46, 48, 48, 53] := by decide   -- "-0.005"
 
 end Fpdec.Props.C07
